@@ -93,8 +93,22 @@ def dataName (key : Str) (ext : Option Str) : Str :=
   | some e => key ++ '.' :: e
 
 def dataPath (slug key : Str) (ext : Option Str) : List Str := taskDir slug ++ [dataName key ext]
-def runInfoPath (slug key : Str) : List Str := taskDir slug ++ [key ++ ".run_info.yaml".toList]
-def logPath (slug key : Str) : List Str := taskDir slug ++ [key ++ ".log".toList]
+
+/-- index of the last `.` of a file name (`name.rfind('.')`), if any -/
+def lastDot (name : Str) : Option Nat :=
+  match (name.reverse.takeWhile (· != '.')).length with
+  | n => if n < name.length then some (name.length - 1 - n) else none
+
+/-- `pathlib.PurePath(name).stem`: the name without its last suffix; a leading dot or a trailing dot is no suffix -/
+def pyStem (name : Str) : Str :=
+  match lastDot name with
+  | some i => if 0 < i && i < name.length - 1 then name.take i else name
+  | none => name
+
+/-- `Data.run_info_path` / `Data.log_path`: `path.parent / f'{path.stem}.run_info.yaml'` — named after the STEM of the result's
+file or directory name (for `<key>.<ext>` that is the key; for a directory result it is the key up to its last dot) -/
+def runInfoPath (slug key : Str) (ext : Option Str) : List Str := taskDir slug ++ [pyStem (dataName key ext) ++ ".run_info.yaml".toList]
+def logPath (slug key : Str) (ext : Option Str) : List Str := taskDir slug ++ [pyStem (dataName key ext) ++ ".log".toList]
 
 end Key
 end TCV
